@@ -39,12 +39,15 @@ def run(ctx, mode='C02'):
             g = pygen.Gen(ctx.rng, allow_return=(scope == 'func'), full_raise=False)
             trees.append((g.program(), scope))
 
+    src_of, lay_of = {}, {}
     impl_terms, impl_noscope_terms, ref_terms = [], [], []
     impl_meta, ref_meta = [], []
     direct_bad = []
     for idx, (body, scope) in enumerate(trees):
         try:
             src, reads, binds, obs = rc.analyse_program(ctx, body, scope)
+            src_of[id(body)] = src
+            lay_of[id(body)] = obs.get('layout_seed')
         except Exception as e:  # a crash of supp on a valid program: C08's business, but not silent
             ctx.violation('supp raised %s: %s while analysing a generated program' % (type(e).__name__, e),
                           {'kind': 'crash', 'source': pygen.render_plain(body, scope)[0]})
@@ -93,7 +96,7 @@ def run(ctx, mode='C02'):
             continue
         reported.add(key)
         body, scope = trees[idx]
-        ctx.violation(what, {'kind': 'direct', 'scope': scope, 'tree': body, 'source': pygen.render_plain(body, scope)[0], 'decisions': eff})
+        ctx.violation(what, {'kind': 'direct', 'scope': scope, 'tree': body, 'source': src_of.get(id(body)) or pygen.render_plain(body, scope)[0], 'layout_seed': lay_of.get(id(body)), 'decisions': eff})
 
     bad_i = ctx.run_cases(rc.IMPORTS, rc.CHECK_PRELUDE, 'check_impl', impl_terms, shard=150)
     bad_n = ctx.run_cases(rc.IMPORTS, rc.CHECK_PRELUDE, 'check_impl_noscope', impl_noscope_terms, shard=150)
@@ -135,7 +138,7 @@ K3_TREE = [('try', [('assign', [], [(1, 'x')], 'plain'), ('if', [], [('return',)
 
 
 def known_k3(ctx):
-    src, reads, binds, obs = rc.analyse_program(ctx, K3_TREE, 'func')
+    src, reads, binds, obs = rc.analyse_program(ctx, K3_TREE, 'func', None)
     log, eff, ar, err = rc.Oracle(pygen.render_instrumented(K3_TREE, 'func'), 'func').run([0])
     return bool(rc.direct_c02(obs, log))
 
@@ -177,7 +180,7 @@ def replay(ctx, obj):
         return tuple(tup(y) for y in x) if isinstance(x, list) and x and isinstance(x[0], str) else ([tup(y) for y in x] if isinstance(x, list) else x)
     body = [tup(s) for s in r['tree']]
     scope = r.get('scope', 'func')
-    src, reads, binds, obs = rc.analyse_program(ctx, body, scope)
+    src, reads, binds, obs = rc.analyse_program(ctx, body, scope, r.get('layout_seed'))
     print(src)
     print('supp alternatives:', obs['seen'], 'E02:', obs['e02'], 'unused:', obs['unused'])
     if r.get('decisions') is not None and scope != 'class':
